@@ -139,6 +139,10 @@ def triggers(s: ASchema, text: str) -> set:
     return out
 
 
+def _dotted_group_item(s: ASchema) -> bool:
+    return any('.' in sch or '.' in nm for g in s.groups for sch, nm in g.items)
+
+
 def explain(kind: str, detail, s: ASchema, text: str, lines=None):
     """Attribute a failure to an OPEN known finding, narrowly; None = unexplained."""
     trig = triggers(s, text)
@@ -146,6 +150,10 @@ def explain(kind: str, detail, s: ASchema, text: str, lines=None):
         e = detail
         name = type(e).__name__
         if name == 'TableNotFoundError' and 'F-DOT' in trig and F.is_open('F-DOT'):
+            return 'F-DOT'
+        # a group item `"s"."a.b"` is split on every dot and its first part looked up as a bare name: if a table or alias of
+        # that name exists the item is bound to it, and a second such item makes it a duplicate
+        if name == 'ValidationError' and 'is already in group' in str(e) and F.is_open('F-DOT') and _dotted_group_item(s):
             return 'F-DOT'
         if name == 'ColumnNotFoundError' and 'F-REFSPLIT' in trig and F.is_open('F-REFSPLIT'):
             return 'F-REFSPLIT'
@@ -157,6 +165,8 @@ def explain(kind: str, detail, s: ASchema, text: str, lines=None):
             return 'F-PROPNL'
         return None
     path, exp, act = detail
+    if F.is_open('F-DOT') and '.groups[' in path and 'items' in path and _dotted_group_item(s):
+        return 'F-DOT'            # ... silently, when it is the only one
     if F.is_open('F-DOT') and 'F-DOT' in trig and path.endswith('.type') and isinstance(exp, list) \
             and exp[0] == 'enum' and ('.' in exp[1] or '.' in exp[2]) and isinstance(act, list) and act[0] == 'plain':
         return 'F-DOT'
